@@ -127,6 +127,13 @@ func apply(c Case) ([]lg.Reply, string) {
 			p = append(append(append([]tdspkg.Pkg{}, p[:e.I]...), replacement(e.What)), p[e.I:]...)
 		case "stall":
 			reps[e.Reply].Pack = 3
+		case "stall-after":
+			// the server sends only the first I+1 packages of the reply and never terminates the message
+			if e.I >= len(p) {
+				return nil, "n/a"
+			}
+			p = append([]tdspkg.Pkg{}, p[:e.I+1]...)
+			reps[e.Reply].Pack = 3
 		case "drop-reply":
 			reps = reps[:e.Reply]
 			continue
@@ -635,6 +642,9 @@ func main() {
 			edits = append(edits, Edit{Op: "field", Reply: r, I: i, What: "zero-all"})
 		}
 		edits = append(edits, Edit{Op: "stall", Reply: r}, Edit{Op: "drop-reply", Reply: r})
+		for i := 0; i <= 4; i++ {
+			edits = append(edits, Edit{Op: "stall-after", Reply: r, I: i})
+		}
 	}
 	// DONE status: every single bit and a few combinations
 	for r := 0; r < 2; r++ {
@@ -654,6 +664,21 @@ func main() {
 			c.Edits = []Edit{e}
 			emit(c)
 			h.Section("single-edits", 1)
+		}
+	}
+	// selected pairs (also in quick): an altered package combined with a server that stalls afterwards
+	for _, b := range eb {
+		for r := 0; r < 2; r++ {
+			for i := 0; i <= 4; i++ {
+				for _, k := range replKinds {
+					for j := i; j <= 4; j++ {
+						c := b
+						c.Edits = []Edit{{Op: "replace", Reply: r, I: i, What: k}, {Op: "stall-after", Reply: r, I: j}}
+						emit(c)
+						h.Section("edit+stall", 1)
+					}
+				}
+			}
 		}
 	}
 	// pairs of structural edits (thorough)
